@@ -318,7 +318,11 @@ func coqBody(c *Case) string {
 		for i, e := range c.Body.DDLog {
 			ls[i] = fmt.Sprintf("DL %s %s %s %s %s %s %s", clabels(e.Tags), copt(e.Source), copt(e.Service), copt(e.Hostname), copt(e.SType), cstr(e.Message), cz(e.TsMs))
 		}
-		return "BDDLog " + clist(ls)
+		return "BDDLog " + clockOf(c, len(ls)) + " " + clist(ls)
+	case "ddcf":
+		return "BCf " + cstr(c.Body.NDCtx) + " " + clockOf(c, len(c.Body.ND)) + " []"
+	case "esbulk":
+		return "BEs " + clockOf(c, len(c.Body.ND)) + " []"
 	case "ddmet":
 		ss := make([]string, len(c.Body.DDMet))
 		for i, s := range c.Body.DDMet {
